@@ -22,6 +22,32 @@ fn unhex(s: &str) -> Vec<u8> {
 #[cfg(not(kani))]
 fn main() {
     let a: Vec<String> = std::env::args().collect();
+    if a.len() >= 4 && a[1] == "--probe" {
+        let arg = if let Some(p) = a[3].strip_prefix('@') {
+            std::fs::read_to_string(p).unwrap().trim().to_string()
+        } else {
+            a[3].clone()
+        };
+        let bytes = if arg == "-" { vec![] } else { unhex(&arg) };
+        panic::set_hook(Box::new(|info| {
+            let msg = if let Some(s) = info.payload().downcast_ref::<&str>() {
+                s.to_string()
+            } else if let Some(s) = info.payload().downcast_ref::<String>() {
+                s.clone()
+            } else {
+                "<non-string panic>".to_string()
+            };
+            let loc = info.location().map(|l| format!("{}:{}", l.file(), l.line())).unwrap_or_default();
+            println!("PROBE: panic {} @ {}", msg.replace('\n', " "), loc);
+        }));
+        let name = a[2].clone();
+        let r = panic::catch_unwind(move || mb2_harness::probes::run(&name, &bytes));
+        if let Ok(false) = r {
+            eprintln!("unknown probe");
+            std::process::exit(4);
+        }
+        return;
+    }
     if a.len() < 3 {
         eprintln!("usage: replay <harness> <hexvals|@file>");
         std::process::exit(4);
